@@ -27,7 +27,7 @@ def rec_case(seed):
     if large:                                      # boxes of more than 600 pixels (numpy's large-array median path)
         h, w = rng.randint(26, 30), rng.randint(26, 34)
         by, bx = rng.randint(25, h), rng.randint(25, w)
-    base = rng.randint(0, 20)
+    base = rng.choice([rng.randint(0, 20), rng.randint(-4, -2)])      # also background-subtracted frames (level ~0 below the noise level)
     data = [[base + rng.randint(0, 6) for _ in range(w)] for _ in range(h)]
     if rng.random() < 0.4:                          # a source
         r0, c0 = rng.randrange(h), rng.randrange(w)
